@@ -20,6 +20,7 @@ META = {
     "assumptions": ["analysed targets: x86_64 (leading-zeros bracketed search) and riscv64 without Zbb (plain binary search over the whole table); aarch64 and i686 in the thorough tier"],
     "not_decided": [],
 }
+TECHNIQUE = 'table value rules against the reference, exhaustive evaluation of range()/is_valid/TryFrom over all codes and bracket boundaries, encoder skeleton path rules per target'
 TOP = table("length::TOP_VALUE_BY_ENCODING")
 IDX = table("length::ENCODED_INDICES_BY_LEADING_ZEROS")
 
